@@ -100,6 +100,27 @@ func runG(c xcase, srcKind, dstKind string, xf xform, par int, seed uint32) (str
 	} else {
 		src, _ = img.New(srcKind, srcR, int(seed)%2, 0, 0, int(seed)%2, seed, true)
 	}
+	if g.Inplace && seed%2 == 0 {
+		// in place on a ramp: every pixel is the transform of its left neighbour's ORIGINAL
+		// value (and the row above), so reusing an already-overwritten neighbour shows
+		type setter interface {
+			Set(x, y int, c color.Color)
+		}
+		var st setter
+		switch v := dstSub.(type) {
+		case img.OpaqueDraw:
+			st = v.Image
+		default:
+			st = dstSub.(setter)
+		}
+		for y := srcR.Min.Y; y < srcR.Max.Y; y++ {
+			var c color.Color = color.RGBA64{R: uint16(1000 + 257*int(seed%200)), G: uint16(30000 + y), B: 61000, A: 65535}
+			for x := srcR.Min.X; x < srcR.Max.X; x++ {
+				st.Set(x, y, c)
+				c = xf.pixel(dstSub.At(x, y))
+			}
+		}
+	}
 	before := append([]byte{}, img.Pix(dstParent)...)
 	// capture the source colours first (in place they are about to be overwritten)
 	srcCol := map[[2]int]color.Color{}
